@@ -42,7 +42,7 @@ AMOUNTS = ["const", "negconst", "isub", "reg", "expr", "fixedconst",
            "isubreg", "isubexpr", "var_i", "isubvar_i", "var_I", "regw",
            "isubregw", "isubfixedconst", "var_q", "local_i",
            "var_x", "isubvar_x", "isubxexpr",
-           "zero_then_const", "mm_same"]
+           "zero_then_const", "mm_same", "named_diff"]
 FIXED_ONLY = ("fixedconst", "isubfixedconst", "var_x", "isubvar_x",
               "isubxexpr")
 # ptrN: the cell of an array map addressed through a pointer the program
@@ -84,6 +84,7 @@ def build(fmt, kind, amount, amount_value):
     if amount == "local_i":
         ns["lamt"] = LocalVar("i")
     ns["out"] = m.globalVar("Q")
+    ns["aux"] = m.globalVar("q")
     ns["cellinit"] = m.globalVar("Q")
     if kind == "array" or kind.startswith("ptr"):
         ns["cell"] = m.globalVar(fmt)
@@ -163,6 +164,15 @@ def build(fmt, kind, amount, amount_value):
                 cur -= e.amt_x
             elif amount == "isubxexpr":
                 cur -= e.amt_x * 2
+            elif amount == "named_diff":
+                # a difference with a name, subtracted from two variables
+                # one after the other (d = target - position; a -= d;
+                # b -= d): the cell is the second
+                d_ = e.amt - 3
+                aux = e.aux
+                aux -= d_
+                e.aux = aux
+                cur -= d_
             elif amount == "zero_then_const":
                 # an addition of nothing followed by a real one: between
                 # the two another instance's addition must not get lost
@@ -243,6 +253,8 @@ def amount_raw(fmt, amount, amount_value, amt_in):
         d = -(amt_in & 0xffffffff)
     elif amount == "zero_then_const":
         d = amount_value
+    elif amount == "named_diff":
+        d = -(amt_in - 3)
     elif amount == "mm_same":
         return amt_in if fmt in "qQx" else amt_in & 0xffffffff
     elif amount == "var_x":
